@@ -664,6 +664,7 @@ func RunConc(p Params) *Result {
 	linear := !heavy && (p.Prop == "C08" && p.Extra["race"] == 0 || r.Fork(10).Chance(1, 2))
 	plan := genConc(r.Fork(3), cfg, pools, heavy, linear)
 	w := simrt.NewWorld(simrt.Mix(p.Seed, 12))
+	w.Drift = []int{0, 15, 60}[r.Fork(12).Intn(3)] // running code takes time: the flusher may wake inside a client call
 	sr := r.Fork(4)
 	if p.Sched != nil {
 		w.Sched = *p.Sched
